@@ -19,18 +19,14 @@ fn nums(n: &Node, out: &mut Vec<String>) {
     });
 }
 
-/// The integer constants the emitted comparison must contain, as decimal strings.
+/// The integer constants of which the emitted comparison must contain at least one, as decimal
+/// strings: the written count, or the count multiplied by its unit (either way of writing the
+/// comparison carries the number unchanged; a wrapped, truncated or saturated value is neither).
 fn expected_constants(t: &Test) -> Vec<String> {
     match t {
         Test::Uid(_, n) | Test::Gid(_, n) | Test::Inum(_, n) | Test::Links(_, n) | Test::MirrorCount(_, n) | Test::StripeCount(_, n) => vec![n.to_string()],
-        Test::Size(_, n, u) => {
-            let mut v = vec![(*n as u128 * u.bytes()).to_string()];
-            if *u != SizeUnit::Byte {
-                v.push(u.bytes().to_string());
-            }
-            v
-        }
-        Test::ATime(_, n, u) | Test::CTime(_, n, u) | Test::MTime(_, n, u) => vec![n.to_string(), u.secs().to_string()],
+        Test::Size(_, n, u) => vec![(*n as u128 * u.bytes()).to_string(), n.to_string()],
+        Test::ATime(_, n, u) | Test::CTime(_, n, u) | Test::MTime(_, n, u) => vec![n.to_string(), (*n as u128 * u.secs()).to_string()],
         _ => vec![],
     }
 }
@@ -121,15 +117,14 @@ pub fn check(input: &String, acc: &mut Acc) {
     if let Expr::Test(t) = &tree {
         let mut lits = vec![];
         nums(&shape.scan_args[2], &mut lits);
-        for c in expected_constants(t) {
-            if !lits.contains(&c) {
-                acc.violate(Violation::new(
-                    format!("C07:constant-changed-in-program:{kw}"),
-                    format!("{input:?}: the emitted comparison has integer literals {lits:?}; the exact constant {c} is not among them"),
-                    wit(),
-                ));
-                return;
-            }
+        let want = expected_constants(t);
+        if !want.is_empty() && !want.iter().any(|c| lits.contains(c)) {
+            acc.violate(Violation::new(
+                format!("C07:constant-changed-in-program:{kw}"),
+                format!("{input:?}: the emitted comparison has integer literals {lits:?}; neither the written count nor count x unit ({want:?}) is among them"),
+                wit(),
+            ));
+            return;
         }
         acc.outcome(&lits);
         // behaviour on records around the constant
